@@ -176,7 +176,7 @@ Proof.
 Qed.
 
 (* ---------- the invariant over all histories ---------- *)
-Definition AInv (s : db) : Prop := SInv s /\ id_inv s /\ log_wfe (log s) /\ RepInv (log s) (committed s).
+Definition StoreInv (s : db) : Prop := SInv s /\ id_inv s /\ log_wfe (log s) /\ RepInv (log s) (committed s).
 
 Lemma RepInv_log L L' tb : id_ok L (t_i tb) -> (forall id off, In (id, off) (t_i tb) -> log_find L' off = log_find L off) ->
   RepInv L tb -> RepInv L' tb.
@@ -184,7 +184,7 @@ Proof.
   intros _ Hs R id1 off1 e1 id2 off2 e2 H1 H2 F1 F2. rewrite (Hs _ _ H1) in F1. rewrite (Hs _ _ H2) in F2. eapply R; eauto.
 Qed.
 
-Lemma remove_event_AInv s id : AInv s -> AInv (fst (remove_event s id)).
+Lemma remove_event_StoreInv s id : StoreInv s -> StoreInv (fst (remove_event s id)).
 Proof.
   intros (Hs & Hid & Hwe & Hr).
   pose proof (remove_event_SInv s id Hs) as Hs'. pose proof (remove_event_id_inv s id Hid) as Hid'.
@@ -193,23 +193,23 @@ Proof.
   refine (conj Hs' (conj Hid' (conj Hwe _))). cbn [with_committed committed log].
   eapply RepInv_ile; [eapply remove_by_id_ile; eauto|exact Hr].
 Qed.
-Lemma remove_events_AInv ids : forall s, AInv s -> AInv (fst (remove_events s ids)).
+Lemma remove_events_StoreInv ids : forall s, StoreInv s -> StoreInv (fst (remove_events s ids)).
 Proof.
   induction ids as [|id r IH]; intros s Hi; cbn [remove_events fst]; [exact Hi|].
-  pose proof (remove_event_AInv s id Hi) as H1.
+  pose proof (remove_event_StoreInv s id Hi) as H1.
   destruct (remove_event s id) as [s' [u|x| |]]; cbn [fst] in *; auto.
 Qed.
-Lemma vanish_AInv s pk : AInv s -> AInv (fst (vanish s pk)).
+Lemma vanish_StoreInv s pk : StoreInv s -> StoreInv (fst (vanish s pk)).
 Proof.
   intros Hi. unfold vanish.
   destruct (find_events s _ all_match 0 true 0 0) as [[evs red]|x| |]; cbn [fst]; auto.
-  pose proof (remove_events_AInv (map e_id evs) s Hi) as H1.
+  pose proof (remove_events_StoreInv (map e_id evs) s Hi) as H1.
   destruct (remove_events s (map e_id evs)) as [s1 [u|x| |]]; cbn [fst] in *; auto.
   destruct (find_events s1 _ all_match 0 true 0 0) as [[gws red2]|x| |]; cbn [fst]; auto.
-  apply remove_events_AInv. exact H1.
+  apply remove_events_StoreInv. exact H1.
 Qed.
 
-Lemma store_event_AInv s e : wf_ev e -> AInv s -> AInv (fst (store_event s e)).
+Lemma store_event_StoreInv s e : wf_ev e -> StoreInv s -> StoreInv (fst (store_event s e)).
 Proof.
   intros We (Hs & Hid & Hwe & Hr).
   pose proof (store_event_SInv s e (wf_ev_wf_id e We) Hs) as Hs'.
@@ -262,24 +262,24 @@ Definition ops_wfe (ops : list cop) : Prop :=
 Lemma ops_wfe_wf ops : ops_wfe ops -> ops_wf ops.
 Proof. intros H. eapply Forall_impl; [|exact H]. intros [e| | | |]; auto. apply wf_ev_wf_id. Qed.
 
-Lemma AInv_init names : AInv (db_init names).
+Lemma StoreInv_init names : StoreInv (db_init names).
 Proof.
   split; [apply SInv_init|]. split; [apply id_inv_init|]. split; [intros off e H; discriminate H|].
   intros id1 off1 e1 id2 off2 e2 [].
 Qed.
-Lemma c_step_AInv s op : (match op with CStore e => wf_ev e | _ => True end) -> AInv s -> AInv (c_step s op).
+Lemma c_step_StoreInv s op : (match op with CStore e => wf_ev e | _ => True end) -> StoreInv s -> StoreInv (c_step s op).
 Proof.
   intros Wop Hs. destruct op; cbn [c_step].
-  - apply store_event_AInv; assumption.
-  - apply remove_event_AInv; assumption.
-  - apply vanish_AInv; assumption.
+  - apply store_event_StoreInv; assumption.
+  - apply remove_event_StoreInv; assumption.
+  - apply vanish_StoreInv; assumption.
   - destruct Hs as (Hs & Hid & Hwe & Hr). split; [apply (c_step_SInv s (CXput n k v) I Hs)|]. split; [exact Hid|]. split; [exact Hwe|exact Hr].
   - exact Hs.
 Qed.
-Lemma c_run_AInv ops : forall s, ops_wfe ops -> AInv s -> AInv (c_run ops s).
+Lemma c_run_StoreInv ops : forall s, ops_wfe ops -> StoreInv s -> StoreInv (c_run ops s).
 Proof.
   induction ops as [|op ops IH]; intros s Hw Hs; cbn [c_run fold_left]; [exact Hs|].
-  inversion Hw as [|? ? Hop Hr]; subst. apply IH; [exact Hr|]. apply c_step_AInv; assumption.
+  inversion Hw as [|? ? Hop Hr]; subst. apply IH; [exact Hr|]. apply c_step_StoreInv; assumption.
 Qed.
 
 Lemma by_id_entry s id e : id_inv s -> get_event_by_id s id = Ok (Some e) ->
@@ -298,7 +298,7 @@ Theorem at_most_one_per_address_concrete ops names e1 e2 :
   get_event_by_id s (e_id e1) = Ok (Some e1) -> get_event_by_id s (e_id e2) = Ok (Some e2) ->
   same_address e1 e2 -> e1 = e2.
 Proof.
-  intros Hops s H1 H2 SA. destruct (c_run_AInv ops _ Hops (AInv_init names)) as (_ & Hid & _ & Hr). fold s in Hid, Hr.
+  intros Hops s H1 H2 SA. destruct (c_run_StoreInv ops _ Hops (StoreInv_init names)) as (_ & Hid & _ & Hr). fold s in Hid, Hr.
   destruct (by_id_entry s _ _ Hid H1) as [o1 [I1 F1]]. destruct (by_id_entry s _ _ Hid H2) as [o2 [I2 F2]].
   assert (o1 = o2) by (eapply Hr; eauto). subst o2. congruence.
 Qed.
